@@ -15,6 +15,8 @@ import (
 	"errors"
 	"fmt"
 	"io"
+	"os"
+	"runtime/debug"
 	"sort"
 	"strings"
 	"sync"
@@ -39,16 +41,19 @@ import (
 )
 
 // Known findings whose triggers are excluded by construction (see plan.json, replays/C16).
-// Set to false to let the generator reach them again.
+// Set to false (or run with C16_NO_EXCLUDE=1, e.g. against a repaired tree) to let the
+// generator reach them again.
+var noExclude = os.Getenv("C16_NO_EXCLUDE") != ""
+
 const (
 	// lessFuncPosBased looks the *hinted* IDSource of the request up in a map keyed without
 	// hint: with store hints (what real stores send) the fast-forward over unexpected
 	// documents never works; an unrequested document panics, a late/duplicate one blocks the
 	// merged stream for every other source.
-	excludeHintedUnexpected = false
+	excludeHintedUnexpected = true
 	// two sources with an unrequested document at the head of their streams at the same time
 	// reach panic("attempt to compare unknown IDSources") in the two-way merge.
-	excludeTwoForeign = false
+	excludeTwoForeign = true
 )
 
 // scripted outcome of the Search call on one host
@@ -148,6 +153,13 @@ func genDocs(t *rapid.T, n int, spread uint64, known *[]model.Doc, seen map[mode
 }
 
 func genSearchOutcome(t *rapid.T, okPct int, mode int) int {
+	if mode == 1 && rapid.IntRange(0, 3).Draw(t, "aged") != 0 {
+		// the request reaches behind the hot tier's retention: most hot stores refuse it
+		if rapid.IntRange(0, 4).Draw(t, "legacy") == 4 {
+			return sWantsOldErr
+		}
+		return sWantsOld
+	}
 	u := rapid.IntRange(0, 99).Draw(t, "s")
 	if u < okPct {
 		return sOK
@@ -162,10 +174,8 @@ func genSearchOutcome(t *rapid.T, okPct int, mode int) int {
 	// the special answers short-circuit the whole request; a per-case mode keeps them from
 	// dominating every large topology
 	switch mode {
-	case 0:
+	case 0, 1:
 		return sErr
-	case 1:
-		return []int{sWantsOld, sWantsOld, sWantsOld, sWantsOldErr}[k%4]
 	case 2:
 		return sTooManyFrac
 	case 3:
@@ -196,7 +206,11 @@ func genCase(t *rapid.T) Case {
 	c.Docs = rapid.IntRange(0, 4).Draw(t, "op") == 4
 	hs := rapid.IntRange(1, 3).Draw(t, "hot_shards")
 	hr := rapid.IntRange(1, 3).Draw(t, "hot_replicas")
+	mode := []int{0, 0, 0, 1, 1, 2, 3, 4}[rapid.IntRange(0, 7).Draw(t, "mode")]
 	cs := []int{0, 0, 1, 2, 3}[rapid.IntRange(0, 4).Draw(t, "cold_shards")]
+	if mode == 1 && cs == 0 {
+		cs = rapid.IntRange(0, 3).Draw(t, "cold_shards_aged")
+	}
 	cr := 1
 	if cs > 0 {
 		cr = rapid.IntRange(1, 3).Draw(t, "cold_replicas")
@@ -204,12 +218,11 @@ func genCase(t *rapid.T) Case {
 	c.HotRead = rapid.IntRange(0, 5).Draw(t, "hot_read") == 5
 	c.Hints = rapid.Bool().Draw(t, "hints")
 	okPct := []int{90, 70, 50, 30}[rapid.IntRange(0, 3).Draw(t, "failrate")]
-	mode := []int{0, 0, 1, 1, 2, 3, 4}[rapid.IntRange(0, 6).Draw(t, "mode")]
 	ffp := []int{0, 25, 50, 80}[rapid.IntRange(0, 3).Draw(t, "fetchfaults")]
 	c.Hot.Hosts = genTier(t, hs, hr, okPct, mode, ffp)
 	coldMode := mode
 	if mode == 1 {
-		// a long-term store does not refuse old data unless the case asks for everything
+		// a long-term store does not refuse old data unless the case asks for every kind
 		coldMode = 0
 	}
 	c.Cold.Hosts = genTier(t, cs, cr, okPct, coldMode, ffp)
@@ -226,7 +239,7 @@ func genCase(t *rapid.T) Case {
 	var known []model.Doc
 	seen := map[model.ID]bool{}
 	for s := 0; s < hs; s++ {
-		n := rapid.IntRange(0, 9).Draw(t, "ndocs")
+		n := rapid.IntRange(0, 10).Draw(t, "ndocs")
 		c.Hot.Corpora = append(c.Hot.Corpora, genDocs(t, n, spread, &known, seen, overlap))
 	}
 	coldCopy := []int{0, 40}[rapid.IntRange(0, 1).Draw(t, "cold_has_hot")]
@@ -236,28 +249,36 @@ func genCase(t *rapid.T) Case {
 	}
 
 	// request
-	if rapid.IntRange(0, 4).Draw(t, "allq") < 2 {
+	// the fakes evaluate the generated tree, not the text: what matters here is that the
+	// matching set differs between shards and is rarely empty
+	switch rapid.IntRange(0, 9).Draw(t, "qkind") {
+	case 0, 1, 2:
 		c.Q = model.All()
-	} else {
+	case 3, 4, 5:
+		c.Q = model.Lit("_exists_", model.Exact([]string{"svc", "lvl", "trace", "msg", "num"}[rapid.IntRange(0, 4).Draw(t, "exists")]))
+	case 6, 7:
+		c.Q = model.Not(gen.Atom(t))
+	default:
 		c.Q = gen.Query(t, 3)
 	}
 	c.Text = model.RenderSeqQL(c.Q, gen.Style(t))
-	c.From, c.To = gen.TimeRange(t, model.Corpus(known))
+	c.From, c.To = 0, gen.BaseMID*2
+	if rapid.Bool().Draw(t, "narrow") {
+		c.From, c.To = gen.TimeRange(t, model.Corpus(known))
+	}
 	c.Asc = rapid.Bool().Draw(t, "asc")
-	switch rapid.IntRange(0, 5).Draw(t, "offkind") {
-	case 0, 1, 2:
-		c.Offset = 0
-	case 3, 4:
+	switch rapid.IntRange(0, 9).Draw(t, "offkind") {
+	case 7, 8:
 		c.Offset = rapid.IntRange(1, 4).Draw(t, "offset")
-	default:
+	case 9:
 		c.Offset = rapid.IntRange(5, 30).Draw(t, "offset")
 	}
-	switch rapid.IntRange(0, 7).Draw(t, "sizekind") {
-	case 0:
+	switch rapid.IntRange(0, 15).Draw(t, "sizekind") {
+	case 0, 1:
 		c.Size = 100
-	case 1:
+	case 2, 3:
 		c.Size = 1
-	case 2:
+	case 15:
 		c.Size = 0
 	default:
 		c.Size = rapid.IntRange(2, 12).Draw(t, "size")
@@ -290,6 +311,9 @@ func genCase(t *rapid.T) Case {
 
 // exclude neutralises, by construction, the triggers of the findings recorded for C16.
 func exclude(c *Case) {
+	if noExclude {
+		return
+	}
 	foreign := 0
 	for _, tier := range []*Tier{&c.Hot, &c.Cold} {
 		for s := range tier.Hosts {
@@ -331,7 +355,6 @@ type fetchLog struct {
 type world struct {
 	mu      sync.Mutex
 	c       *Case
-	wg      sync.WaitGroup
 	fetches []*fetchLog
 	mangled string // a Search request that does not carry the case's query text
 	foreign int
@@ -351,8 +374,6 @@ var tierName = [2]string{"hot", "cold"}
 func hostName(tier, s, r int) string { return fmt.Sprintf("%s-s%d-r%d:9002", tierName[tier], s, r) }
 
 func (f *fake) Search(ctx context.Context, in *storeapi.SearchRequest, _ ...grpc.CallOption) (*storeapi.SearchResponse, error) {
-	f.w.wg.Add(1)
-	defer f.w.wg.Done()
 	if ctx.Err() != nil {
 		return nil, status.FromContextError(ctx.Err()).Err()
 	}
@@ -822,14 +843,31 @@ func runCase(c Case) (evid.Result, error) {
 	}
 	nontrivial := false
 	var err error
-	if c.Docs {
-		labels["op=documents"] = true
-		nontrivial, err = runDocuments(&c, w, ing, bodies, labels, &res)
-	} else {
-		labels["op=search"] = true
-		nontrivial, err = runSearch(&c, w, ing, bodies, labels, &res)
-	}
-	w.wg.Wait()
+	func() {
+		// the one panic this check knows by name gets its own signature (site included), so
+		// that recording it as a known finding cannot hide any other panic
+		defer func() {
+			if p := recover(); p != nil {
+				if s, ok := p.(string); ok && s == "attempt to compare unknown IDSources" {
+					st := string(debug.Stack())
+					site := "two_way_merge"
+					if i := strings.Index(st, "lessFuncPosBased.func1"); i >= 0 && strings.Contains(firstFrameAfter(st[i:]), "mergedStreamIterator") {
+						site = "hinted_request_entry"
+					}
+					err = evid.Failf("panic_unknown_idsources:"+site, "panic(%q) in proxy/search (%s)", s, site)
+					return
+				}
+				panic(p)
+			}
+		}()
+		if c.Docs {
+			labels["op=documents"] = true
+			nontrivial, err = runDocuments(&c, w, ing, bodies, labels, &res)
+		} else {
+			labels["op=search"] = true
+			nontrivial, err = runSearch(&c, w, ing, bodies, labels, &res)
+		}
+	}()
 	if err != nil {
 		return res, err
 	}
@@ -842,6 +880,15 @@ func runCase(c Case) (evid.Result, error) {
 	sort.Strings(res.Labels)
 	res.NonTrivial = nontrivial
 	return res, nil
+}
+
+// firstFrameAfter returns the function line of the stack frame that follows the first one.
+func firstFrameAfter(st string) string {
+	lines := strings.Split(st, "\n")
+	if len(lines) > 2 {
+		return lines[2]
+	}
+	return ""
 }
 
 // askedFor indexes the fetch log: ID -> (log entry, index in that host's request).
@@ -895,7 +942,7 @@ func fetchLabels(c *Case, logs []*fetchLog, labels map[string]bool) (midway bool
 }
 
 // checkDoc applies the document clause to one position.
-func checkDoc(c *Case, pos int, id model.ID, data []byte, bodies map[model.ID][]byte, who []asked, labels map[string]bool) error {
+func checkDoc(c *Case, pos int, id model.ID, data []byte, bodies map[model.ID][]byte, who []asked, labels map[string]bool, hintedUnexpected bool) error {
 	body := bodies[id]
 	if len(data) != 0 && !bytes.Equal(data, body) {
 		return evid.Failf("wrong_document", "position %d: ID %s came with bytes %q, its document is %q", pos, fmtIDs([]model.ID{id}), data, body)
@@ -914,7 +961,11 @@ func checkDoc(c *Case, pos int, id model.ID, data []byte, bodies map[model.ID][]
 			continue
 		}
 		if a.l.delivers(a.i) {
-			return evid.Failf("document_lost", "position %d: ID %s is empty although %s (fetch behaviour %s) delivered it in order with its bytes",
+			sig := "document_lost"
+			if hintedUnexpected {
+				sig = "document_lost:hinted_request_and_unexpected_block"
+			}
+			return evid.Failf(sig, "position %d: ID %s is empty although %s (fetch behaviour %s) delivered it in order with its bytes",
 				pos, fmtIDs([]model.ID{id}), hostName(a.l.tier, a.l.shard, a.l.rep), fetchName[h.F])
 		}
 	}
@@ -1057,6 +1108,14 @@ func runSearch(c *Case, w *world, ing *search.Ingestor, bodies map[model.ID][]by
 		if fetchLabels(c, logs, labels) {
 			nontrivial = true
 		}
+		// the class of the recorded finding: a hinted request and a stream that carries a block
+		// the position-ordered consumer has to skip
+		hintedUnexpected := false
+		for _, l := range logs {
+			if f := c.tier(l.tier).Hosts[l.shard][l.rep].F; c.Hints && len(l.req) > 0 && !l.openErr && (f == fExtraDup || f == fExtraFor || f == fReorder) {
+				hintedUnexpected = true
+			}
+		}
 		// what proxyapi.makeProtoDocs does: one Next per returned ID, errors ignored
 		for i, id := range got {
 			d, _ := docs.Next()
@@ -1065,7 +1124,7 @@ func runSearch(c *Case, w *world, ing *search.Ingestor, bodies map[model.ID][]by
 			if len(who) == 0 {
 				return false, evid.Failf("document_not_requested", "position %d: ID %s was returned but no store was asked for its document", i, fmtIDs([]model.ID{id}))
 			}
-			if e := checkDoc(c, i, id, d.Data, bodies, who, labels); e != nil {
+			if e := checkDoc(c, i, id, d.Data, bodies, who, labels, hintedUnexpected); e != nil {
 				return false, e
 			}
 		}
@@ -1122,7 +1181,7 @@ func runDocuments(c *Case, w *world, ing *search.Ingestor, bodies map[model.ID][
 		if id != c.IDs[i] {
 			return false, evid.Failf("documents_order", "entry %d carries ID %s, requested was %s", i, fmtIDs([]model.ID{id}), fmtIDs([]model.ID{c.IDs[i]}))
 		}
-		if e := checkDoc(c, i, id, d.Data, bodies, byIdx[id], labels); e != nil {
+		if e := checkDoc(c, i, id, d.Data, bodies, byIdx[id], labels, false); e != nil {
 			return false, e
 		}
 	}
